@@ -183,7 +183,7 @@ class Ctx:
             self.notes.append('lean build log tail: ' + log[-1500:])
             # bv_decide reports a falsifying assignment when a bit-vector obligation (tie T, second generation) is false:
             # that assignment is an input on which the generated code and its reference differ
-            for m in re.finditer(r'error: (\S+?):(\d+):\d+: The prover found a (?:potentially spurious )?counterexample[^\n]*\n((?:[^\n]*=[^\n]*\n)+)', log):
+            for m in re.finditer(r'error: (\S+?):(\d+):\d+: The prover found a (?:potentially spurious )?counterexample.*?\n((?:[\w.\' ()+#]+ = [^\n]*\n)+)', log, re.S):
                 self.notes.append(f'SAT counterexample for the obligation at {m.group(1)}:{m.group(2)} ({self.enclosing_decl(m.group(1), int(m.group(2)))}): '
                                   + ' '.join(x.strip() for x in m.group(3).strip().split('\n'))[:1500])
             self.cov['discharged'] = 0
